@@ -14,7 +14,7 @@
 (* Dev switches the listed (repaired) defects back on; with Dev = {} the   *)
 (* module is what main() does after the fix: commits.                      *)
 (***************************************************************************)
-EXTENDS Naturals, Integers, Sequences, FiniteSets, TLC
+EXTENDS Naturals, Integers, Sequences, FiniteSets, TLC, Extracted
 
 CONSTANTS Family,      \* "history" | "tree" | "options": which input family Init draws from
           MaxN,        \* history: max number of files; tree: max number of nodes
@@ -26,7 +26,7 @@ DevNames == {"exit_last_file", "abort_on_fatal", "dir_named_like_source", "recli
 ASSUME Dev \subseteq DevNames
 
 (* content classes of a C source file *)
-Classes == {"clean", "notice", "err", "errdef", "fatal", "fatalif"}
+Classes == {"clean", "notice", "err", "errdef", "errmany", "fatal", "fatalif"}
 (* err: an ordinary Error diagnostic; errdef: only #define-value Errors (what -R CheckDefine removes);
    fatal: unparsable; fatalif: unparsable inside an #if expression (touches the recursion limit) *)
 
@@ -90,6 +90,7 @@ TreeInputs ==
            : n \in 0..MaxN}
 
 (* options: one file, every option combination *)
+RuleWords == {CheckNames[i] : i \in DOMAIN CheckNames} \cup {PrimaryPairs[i][1] : i \in DOMAIN PrimaryPairs}
 RWords == {"none", "CheckDefine", "CheckForbiddenSourceHeader", "CheckDefines", "NoCheckDefine", "Foo"}
 OptionInputs ==
     {[tree |-> << FileNode(0, "a.c", c) >>,
@@ -97,6 +98,12 @@ OptionInputs ==
       opts |-> [format |-> f, colors |-> col, only |-> o, debug |-> d, R |-> r, gitignore |-> FALSE, inline |-> inl]]
        : c \in {"clean", "notice", "err", "errdef"}, f \in {"humanized", "json"}, col \in BOOLEAN, o \in BOOLEAN,
          d \in 0..2, r \in RWords, inl \in {"none", "cfile", "cfile+name"}}
+    (* an unknown -R word stays unknown when it happens to be the name of a rule of the registry (names extracted from *)
+    (* the tree): a file with many different diagnostics keeps them all                                              *)
+    \cup {[tree |-> << FileNode(0, "a.c", "errmany") >>,
+           args |-> << [node |-> 1, slash |-> FALSE] >>,
+           opts |-> [format |-> f, colors |-> TRUE, only |-> FALSE, debug |-> 0, R |-> r, gitignore |-> FALSE, inline |-> "none"]]
+            : f \in {"humanized", "json"}, r \in {"none"} \cup RuleWords}
 
 Inputs == IF Family = "history" THEN HistoryInputs
           ELSE IF Family = "tree" THEN TreeInputs ELSE OptionInputs
@@ -117,7 +124,7 @@ Init == /\ \E x \in {y \in Inputs : InputHash(y) = Shard} :
 (***************************************************************************)
 Verdict(cls, R) ==
     IF cls \in {"fatal", "fatalif"} THEN "Fatal"
-    ELSE IF cls = "err" THEN "Error"
+    ELSE IF cls \in {"err", "errmany"} THEN "Error"
     ELSE IF cls = "errdef" THEN (IF R = "CheckDefine" THEN "OK" ELSE "Error")
     ELSE "OK"
 
